@@ -199,6 +199,7 @@ class Interp:
         self.call_trace = None          # optional list: names of MIR fns entered
         self.hooks = {}                 # callee-key -> python fn(interp, args) overriding resolution
         self.max_depth = 400
+        self.fn_seen = set()
 
     # ---------------------------------------------------------------- values helpers
     def const_value(self, c, substs, cur_fn=None):
@@ -499,6 +500,7 @@ class Interp:
         self.depth += 1
         if self.depth > self.max_depth: raise StepLimit('call depth > %d' % self.max_depth)
         if self.call_trace is not None: self.call_trace.append(f.name)
+        self.fn_seen.add(f.key)
         fr = Frame(); fr.fn = f; fr.substs = substs
         loc = [UNINIT] * f.nlocals
         for (idx, _), v in zip(f.params, args): loc[idx] = v
@@ -545,6 +547,9 @@ class Interp:
                     raise Unsupported('unparsed MIR: ' + t[1])
                 else:
                     raise Unsupported('terminator ' + k)
+        except RustPanic as rp:
+            if not rp.where: rp.where = f.name
+            raise
         finally:
             self.depth -= 1
 
